@@ -27,7 +27,6 @@ Print Assumptions C03_mp4_delete_preserves_wf.
 Theorem C03_mp4_new_tags_structure_partial f ilst_data cb f' atoms path last rest it :
   mp4_wf f = true -> mp4_atoms f = Ok atoms -> mp4_path atoms ILST_PATH = None ->
   mp4_insert_path atoms = Some path -> rev path = last :: rest ->
-  (forall T, In T (all_tabs atoms) -> ma_off T <> ma_off last + ma_hdr last) ->
   ilst_wellformed ilst_data it -> mp4_height it <= 62 -> zlen ilst_data < 4611686018427387904 ->
   mp4_save f ilst_data cb = Ok f' ->
   exists atoms', mp4_atoms f' = Ok atoms' /\ mp4_forest_ok f' true atoms' 0 (zlen f') = true /\
